@@ -186,6 +186,9 @@ class RequestHandlerBase(MethodView):
             # or a time (date and time, or time of day)
             if not isinstance(pos, (int, datetime.datetime, datetime.time)):
                 raise ValueError(f'Invalid error position: "{pos}"')
+            if not isinstance(pos, int) and pos.tzinfo is not None:
+                # raises ValueError if the UTC offset is 24 hours or more
+                pos.utcoffset()
         for name in options.eventTypes:
             if name not in EventFactory.EVENT_TYPES:
                 # unknown event names are ignored by the EventFactory
